@@ -93,35 +93,33 @@ class Tabler:
             out = [Path(conds=c).extend(p) for c in tc for p in tp] + [Path(conds=c).extend(p) for c in fc for p in fp]
             return self._cap(out)
         if k == "Match" and n.get("src") in ("Normal", "Postfix"):
-            # an arm `P => body` is the condition `let P = scrutinee` (same atom as the if-let spelling, so the
-            # namer sees one form); a guard-free last arm is reached exactly when all earlier arms failed
-            # (rustc checked exhaustiveness), so it contributes no atom of its own
+            # an arm `P if G => body` is the condition `let P = scrutinee && G` (same atoms as the if-let spelling, so
+            # the namer sees one form).  `ctxs` are the ways all earlier arms failed: not-P, or P with a failed guard.
+            # A guard-free last arm is reached exactly when all earlier arms failed (rustc checked exhaustiveness),
+            # so it contributes no atom of its own.
             out = []
-            negs = ()
+            ctxs = [()]
             arms = n["arms"]
             for ai, arm in enumerate(arms):
                 wild = arm["pat"].get("k") in ("Wild",) or (arm["pat"].get("k") == "Binding" and "sub" not in arm["pat"])
                 if ai == len(arms) - 1 and "guard" not in arm and len(arms) > 1:
                     wild = True
                 if wild:
-                    atom = None
-                    here = negs
+                    pt, pf = [()], []
                 else:
-                    tl, _fl = self.cond({"k": "LetExpr", "pat": arm["pat"], "init": n["e"]})
-                    atom = tl[0][0][0]
-                    here = negs + ((atom, True),)
+                    pt, pf = self.cond({"k": "LetExpr", "pat": arm["pat"], "init": n["e"]})
                 body = self.paths(arm["body"])
                 if "guard" in arm:
                     tg, fg = self.cond(arm["guard"])
-                    for g in tg:
-                        out += [Path(conds=here + g).extend(p) for p in body]
-                    # a failed guard falls through to later arms: approximate by adding the negated guard to later arms
-                    if len(tg) == 1 and len(tg[0]) == 1:
-                        negs = negs + ((tg[0][0][0], False),) if wild else negs
-                    continue
-                out += [Path(conds=here).extend(p) for p in body]
-                if not wild:
-                    negs = negs + ((atom, False),)
+                else:
+                    tg, fg = [()], []
+                for cx in ctxs:
+                    for a in pt:
+                        for g in tg:
+                            out += [Path(conds=cx + a + g).extend(p) for p in body]
+                ctxs = [cx + a for cx in ctxs for a in pf] + [cx + a + g for cx in ctxs for a in pt for g in fg]
+                if len(ctxs) > 64:
+                    raise core.AnalysisError("match with too many guard contexts")
             return self._cap(out)
         if k == "Ret":
             inner = self.paths(n["e"]) if "e" in n else [Path()]
@@ -165,3 +163,38 @@ def table(paths, drop_empty=False):
             continue
         out.setdefault(frozenset(cs), []).append((p.effects, p.exit))
     return out
+
+
+def outcomes_by_valuation(tbl, atoms=None):
+    """Expand a table {frozenset(conds): [outcome...]} to {full valuation (tuple of (atom, bool) sorted): set(outcomes)}
+    over `atoms` (default: every atom mentioned).  Two tables denote the same decision function iff these maps agree on
+    every valuation covered by both and cover the same valuations — independent of how the rows are partitioned."""
+    import itertools
+    if atoms is None:
+        atoms = sorted({a for k in tbl for a, _ in k})
+    out = {}
+    for vals in itertools.product((False, True), repeat=len(atoms)):
+        env = dict(zip(atoms, vals))
+        res = set()
+        hit = False
+        for k, v in tbl.items():
+            if all(env.get(a) == val for a, val in k):
+                hit = True
+                res.update(v)
+        if hit:
+            out[tuple(sorted(env.items()))] = res
+    return out
+
+
+def same_function(got, want, irrelevant=()):
+    """(equal?, [differing valuations]).  `want` rows may leave atoms unconstrained (don't-care)."""
+    atoms = sorted({a for k in list(got) + list(want) for a, _ in k})
+    if len(atoms) > 12:
+        raise core.AnalysisError("too many atoms for valuation expansion")
+    g = outcomes_by_valuation(got, atoms)
+    w = outcomes_by_valuation(want, atoms)
+    diff = []
+    for val in sorted(set(g) | set(w)):
+        if g.get(val) != w.get(val):
+            diff.append((val, sorted(map(str, g.get(val, []))), sorted(map(str, w.get(val, [])))))
+    return not diff, diff
